@@ -242,12 +242,20 @@ func hookNames(b *bk.Broker) []string {
 func genCase(rt *rapid.T) *Case {
 	c := &Case{Auth: rapid.Bool().Draw(rt, "auth")}
 	n := rapid.IntRange(1, 12).Draw(rt, "n")
+	// long request-only sequences exceed the broker's per-connection token
+	// pools (10 parallel publishes / subscribes): every request must still be answered
+	long := rapid.IntRange(0, 3).Draw(rt, "long") == 0
+	if long {
+		n = rapid.IntRange(13, 45).Draw(rt, "n_long")
+	}
 	q2 := 0
 	for i := 0; i < n; i++ {
 		var typ byte
 		switch {
-		case i == 0 && rapid.IntRange(0, 3).Draw(rt, "connect_first") != 0:
+		case i == 0 && (long || rapid.IntRange(0, 3).Draw(rt, "connect_first") != 0):
 			typ = refcodec.CONNECT
+		case long:
+			typ = rapid.SampledFrom([]byte{refcodec.PUBLISH, refcodec.SUBSCRIBE, refcodec.UNSUBSCRIBE, refcodec.UNSUBSCRIBE, refcodec.PINGREQ, refcodec.PUBREL}).Draw(rt, "type3")
 		case rapid.IntRange(0, 5).Draw(rt, "anytype") == 0:
 			typ = byte(rapid.IntRange(1, 14).Draw(rt, "type"))
 		default:
@@ -313,7 +321,7 @@ func genCase(rt *rapid.T) *Case {
 
 func TestC20(t *testing.T) {
 	run := ev.Start("C20", "exploration")
-	run.Rule("rapid-generated packet sequences of length 1-12 over all 14 types (CONNECT first in 3 of 4 cases, otherwise any type), backend with and without credentials, CONNECT with right/wrong/missing credentials, arbitrary repeated packet ids from {1,2,3,7,65535}, 1-8 filters per SUBSCRIBE, sent in one burst; compared with the protocol response model (multisets; a SUBSCRIBE and a PINGREQ round trip close the observation window). non-trivial = first packet is not CONNECT, or >= 3 pipelined requests after CONNECT; distinct by case JSON")
+	run.Rule("rapid-generated packet sequences of length 1-12 over all 14 types (CONNECT first in 3 of 4 cases, otherwise any type) and, in 1 of 4 cases, request-only sequences of 13-45 packets (PUBLISH/SUBSCRIBE/UNSUBSCRIBE/PINGREQ/PUBREL) that exceed the broker's per-connection token pools, backend with and without credentials, CONNECT with right/wrong/missing credentials, arbitrary repeated packet ids from {1,2,3,7,65535}, 1-8 filters per SUBSCRIBE, sent in one burst; compared with the protocol response model (multisets; a SUBSCRIBE and a PINGREQ round trip close the observation window). non-trivial = first packet is not CONNECT, or >= 3 pipelined requests after CONNECT; distinct by case JSON")
 	run.Assume("publish topics and subscription filters are disjoint so no deliveries are mixed into the responses; at most 9 QoS 2 PUBLISH per connection (the broker's flow control would otherwise block by design)")
 	defer run.Finish(t)
 	run.Rapid(t, "sequences", ev.Pick(1500, 150000), func(rt *rapid.T) {
@@ -327,6 +335,9 @@ func TestC20(t *testing.T) {
 			run.Class("auth-rejected")
 		default:
 			run.Class("connected")
+		}
+		if len(c.Packets) > 12 {
+			run.Class("long-request-sequence")
 		}
 		if first != refcodec.CONNECT || len(c.Packets) >= 4 {
 			run.NonTrivialJSON(c)
